@@ -176,7 +176,7 @@ func GenDiffIn(t *rapid.T) *DiffIn {
 	cfg := &in.Cfg
 	cfg.Ledgers = 1
 	cfg.Accounts = rapid.IntRange(2, 3).Draw(t, "accounts")
-	cfg.CacheSize = rapid.SampledFrom([]int{1, 2, 1024}).Draw(t, "cache")
+	cfg.CacheSize = rapid.SampledFrom([]int{1, 1024}).Draw(t, "cache")
 	cfg.BatchSize = rapid.SampledFrom([]int{1, 4096}).Draw(t, "batch")
 	for a := 0; a < cfg.Accounts; a++ {
 		if f := rapid.IntRange(0, p.FundMax).Draw(t, "fund"); f > 0 {
